@@ -6,9 +6,12 @@ import (
 	"fmt"
 	"os"
 	"runtime/debug"
+	"sort"
 	"strconv"
+	"strings"
 
 	"gofasta-verif/core"
+	"gofasta-verif/eval"
 	"gofasta-verif/rules"
 )
 
@@ -37,6 +40,7 @@ func main() {
 		os.Exit(1)
 	}
 	ctx.Prop = *prop
+	eval.Interpreted = map[string]int{}
 	ctx.Tier = *tier
 	ctx.Count("packages_loaded", len(ctx.Pkgs))
 	ctx.Count("functions_in_scope", len(ctx.RepoFuncs()))
@@ -53,5 +57,17 @@ func main() {
 			fmt.Printf("  [%s] %s @%s %s\n", o.Status, o.Key, o.Pos, o.Detail)
 		}
 	}
-	os.Exit(ctx.Finish(*evidence, *known, seed, nil))
+	// which source functions the rule actually interpreted (as opposed to inspecting or recording them)
+	var interp []string
+	for name := range eval.Interpreted {
+		if strings.Contains(name, core.ModPath) {
+			interp = append(interp, strings.TrimPrefix(strings.ReplaceAll(name, core.ModPath+"/", ""), "("))
+		}
+	}
+	sort.Strings(interp)
+	ctx.Count("source_functions_interpreted", len(interp))
+	if f := os.Getenv("GFCOVER"); f != "" {
+		os.WriteFile(f, []byte(strings.Join(interp, "\n")+"\n"), 0644)
+	}
+	os.Exit(ctx.Finish(*evidence, *known, seed, map[string]interface{}{"interpreted_functions": interp}))
 }
